@@ -1122,6 +1122,8 @@ pub(crate) fn tree_decompose_and_plan(
         }};
     }
     if no_decomp || ctx.atoms.len() <= 2 {
+        #[cfg(feature = "verif-hooks")]
+        crate::verif::hit(crate::verif::Site::plan_single_bag);
         return fast_path!();
     }
 
@@ -1129,8 +1131,12 @@ pub(crate) fn tree_decompose_and_plan(
     let bags = decompose_into_bags(&ctx);
     if bags.len() <= 1 {
         // Don't do Yannakakis if it's just one bag
+        #[cfg(feature = "verif-hooks")]
+        crate::verif::hit(crate::verif::Site::plan_single_bag);
         return fast_path!();
     }
+    #[cfg(feature = "verif-hooks")]
+    crate::verif::hit(crate::verif::Site::plan_decomposed);
 
     // Step 2: Sort bags topologically and merge leafy bags with their parents
     let mut bags = topologically_sort_bags(bags);
